@@ -1,7 +1,8 @@
 ------------------------------- MODULE XmlDoc -------------------------------
 (* C14 generator.  A state is a document under construction: `lex` is the list of TOKEN lexemes emitted so far (start, *)
 (* end and empty tags in several spellings and with attributes, text pieces - plain, white space, the five predefined  *)
-(* entities, numeric references at the UTF-8 length boundaries, undefined / declared / external entity references -,   *)
+(* entities, numeric references at the UTF-8 length boundaries and in NON-SHORTEST forms (leading zeros up to 64        *)
+(* digits, hex digits of either case, in text and in attribute values), undefined / declared / external references -,  *)
 (* CDATA, comments, PIs, XML declarations, DOCTYPEs with and without an internal subset, and truncated constructs).    *)
 (* ANY lexeme of the configured Alphabet may follow any other, so the reachable states are all token sequences up to   *)
 (* MaxLen: the well-formed documents (trees) and the unbalanced / misplaced rest.  At most MaxDead lexemes follow the  *)
@@ -127,6 +128,43 @@ Lexeme == [
   Tgtraw |-> [k |-> "T", name |-> "", attrs |-> <<>>, body |-> <<62>>, src |-> <<62>>, wfok |-> TRUE, free |-> FALSE, defs |-> {}, needs |-> "", feat |-> ""],
   \* "
   Tquot |-> [k |-> "T", name |-> "", attrs |-> <<>>, body |-> <<34>>, src |-> <<34>>, wfok |-> TRUE, free |-> FALSE, defs |-> {}, needs |-> "", feat |-> ""],
+  \* ---- character references in non-shortest forms: leading zeros (any number is legal), hex digits of either case,
+  \* ---- the longest forms of the largest code point, in text and in attribute values of both quoting styles
+  \* &#x0041;
+  Tz4 |-> [k |-> "T", name |-> "", attrs |-> <<>>, body |-> <<38, 35, 120, 48, 48, 52, 49, 59>>, src |-> <<38, 35, 120, 48, 48, 52, 49, 59>>, wfok |-> TRUE, free |-> FALSE, defs |-> {}, needs |-> "", feat |-> "charref-long-form"],
+  \* &#x0001F4A9;
+  Tz8 |-> [k |-> "T", name |-> "", attrs |-> <<>>, body |-> <<38, 35, 120, 48, 48, 48, 49, 70, 52, 65, 57, 59>>, src |-> <<38, 35, 120, 48, 48, 48, 49, 70, 52, 65, 57, 59>>, wfok |-> TRUE, free |-> FALSE, defs |-> {}, needs |-> "", feat |-> "charref-long-form"],
+  \* &#x0001f4a9;
+  Tz8l |-> [k |-> "T", name |-> "", attrs |-> <<>>, body |-> <<38, 35, 120, 48, 48, 48, 49, 102, 52, 97, 57, 59>>, src |-> <<38, 35, 120, 48, 48, 48, 49, 102, 52, 97, 57, 59>>, wfok |-> TRUE, free |-> FALSE, defs |-> {}, needs |-> "", feat |-> "charref-long-form"],
+  \* &#00008364;
+  Tzd8 |-> [k |-> "T", name |-> "", attrs |-> <<>>, body |-> <<38, 35, 48, 48, 48, 48, 56, 51, 54, 52, 59>>, src |-> <<38, 35, 48, 48, 48, 48, 56, 51, 54, 52, 59>>, wfok |-> TRUE, free |-> FALSE, defs |-> {}, needs |-> "", feat |-> "charref-long-form"],
+  \* &#x00000041;
+  Tz41 |-> [k |-> "T", name |-> "", attrs |-> <<>>, body |-> <<38, 35, 120, 48, 48, 48, 48, 48, 48, 52, 49, 59>>, src |-> <<38, 35, 120, 48, 48, 48, 48, 48, 48, 52, 49, 59>>, wfok |-> TRUE, free |-> FALSE, defs |-> {}, needs |-> "", feat |-> "charref-long-form"],
+  \* &#x0010FFFF;
+  Tzmax |-> [k |-> "T", name |-> "", attrs |-> <<>>, body |-> <<38, 35, 120, 48, 48, 49, 48, 70, 70, 70, 70, 59>>, src |-> <<38, 35, 120, 48, 48, 49, 48, 70, 70, 70, 70, 59>>, wfok |-> TRUE, free |-> FALSE, defs |-> {}, needs |-> "", feat |-> "charref-long-form"],
+  \* &#x000010ffff;
+  Tzmaxl |-> [k |-> "T", name |-> "", attrs |-> <<>>, body |-> <<38, 35, 120, 48, 48, 48, 48, 49, 48, 102, 102, 102, 102, 59>>, src |-> <<38, 35, 120, 48, 48, 48, 48, 49, 48, 102, 102, 102, 102, 59>>, wfok |-> TRUE, free |-> FALSE, defs |-> {}, needs |-> "", feat |-> "charref-long-form"],
+  \* &#0001114111;
+  Tzdmax |-> [k |-> "T", name |-> "", attrs |-> <<>>, body |-> <<38, 35, 48, 48, 48, 49, 49, 49, 52, 49, 49, 49, 59>>, src |-> <<38, 35, 48, 48, 48, 49, 49, 49, 52, 49, 49, 49, 59>>, wfok |-> TRUE, free |-> FALSE, defs |-> {}, needs |-> "", feat |-> "charref-long-form"],
+  \* &#x000000000000000000000000000020aC;
+  Tz32 |-> [k |-> "T", name |-> "", attrs |-> <<>>, body |-> <<38, 35, 120, 48, 48, 48, 48, 48, 48, 48, 48, 48, 48, 48, 48, 48, 48, 48, 48, 48, 48, 48, 48, 48, 48, 48, 48, 48, 48, 48, 48, 50, 48, 97, 67, 59>>, src |-> <<38, 35, 120, 48, 48, 48, 48, 48, 48, 48, 48, 48, 48, 48, 48, 48, 48, 48, 48, 48, 48, 48, 48, 48, 48, 48, 48, 48, 48, 48, 48, 50, 48, 97, 67, 59>>, wfok |-> TRUE, free |-> FALSE, defs |-> {}, needs |-> "", feat |-> "charref-long-form"],
+  \* &#00000000000000000000000000000233;
+  Tzd32 |-> [k |-> "T", name |-> "", attrs |-> <<>>, body |-> <<38, 35, 48, 48, 48, 48, 48, 48, 48, 48, 48, 48, 48, 48, 48, 48, 48, 48, 48, 48, 48, 48, 48, 48, 48, 48, 48, 48, 48, 48, 48, 50, 51, 51, 59>>, src |-> <<38, 35, 48, 48, 48, 48, 48, 48, 48, 48, 48, 48, 48, 48, 48, 48, 48, 48, 48, 48, 48, 48, 48, 48, 48, 48, 48, 48, 48, 48, 48, 50, 51, 51, 59>>, wfok |-> TRUE, free |-> FALSE, defs |-> {}, needs |-> "", feat |-> "charref-long-form"],
+  \* a&#x00000010ffff;b;&#x0000000A;c
+  Tzmix |-> [k |-> "T", name |-> "", attrs |-> <<>>, body |-> <<97, 38, 35, 120, 48, 48, 48, 48, 48, 48, 49, 48, 102, 102, 102, 102, 59, 98, 59, 38, 35, 120, 48, 48, 48, 48, 48, 48, 48, 65, 59, 99>>, src |-> <<97, 38, 35, 120, 48, 48, 48, 48, 48, 48, 49, 48, 102, 102, 102, 102, 59, 98, 59, 38, 35, 120, 48, 48, 48, 48, 48, 48, 48, 65, 59, 99>>, wfok |-> TRUE, free |-> FALSE, defs |-> {}, needs |-> "", feat |-> "charref-long-form"],
+  \* &#x00000000;
+  Tz0 |-> [k |-> "T", name |-> "", attrs |-> <<>>, body |-> <<38, 35, 120, 48, 48, 48, 48, 48, 48, 48, 48, 59>>, src |-> <<38, 35, 120, 48, 48, 48, 48, 48, 48, 48, 48, 59>>, wfok |-> FALSE, free |-> FALSE, defs |-> {}, needs |-> "", feat |-> "charref-long-form"],
+  \* &#x00110000;
+  Tz110 |-> [k |-> "T", name |-> "", attrs |-> <<>>, body |-> <<38, 35, 120, 48, 48, 49, 49, 48, 48, 48, 48, 59>>, src |-> <<38, 35, 120, 48, 48, 49, 49, 48, 48, 48, 48, 59>>, wfok |-> FALSE, free |-> FALSE, defs |-> {}, needs |-> "", feat |-> "charref-long-form"],
+  \* <a p="&#x0001F4A9;" q='&#00008364;'>
+  Sa6 |-> [k |-> "S", name |-> "a", attrs |-> <<[n |-> "p", raw |-> <<38, 35, 120, 48, 48, 48, 49, 70, 52, 65, 57, 59>>], [n |-> "q", raw |-> <<38, 35, 48, 48, 48, 48, 56, 51, 54, 52, 59>>]>>, body |-> <<>>, src |-> <<60, 97, 32, 112, 61, 34, 38, 35, 120, 48, 48, 48, 49, 70, 52, 65, 57, 59, 34, 32, 113, 61, 39, 38, 35, 48, 48, 48, 48, 56, 51, 54, 52, 59, 39, 62>>, wfok |-> TRUE, free |-> FALSE, defs |-> {}, needs |-> "", feat |-> "charref-long-form"],
+  \* <b r="x&#x00000041;y&#x0000000000000041;"/>
+  Ma6 |-> [k |-> "M", name |-> "b", attrs |-> <<[n |-> "r", raw |-> <<120, 38, 35, 120, 48, 48, 48, 48, 48, 48, 52, 49, 59, 121, 38, 35, 120, 48, 48, 48, 48, 48, 48, 48, 48, 48, 48, 48, 48, 48, 48, 52, 49, 59>>]>>, body |-> <<>>, src |-> <<60, 98, 32, 114, 61, 34, 120, 38, 35, 120, 48, 48, 48, 48, 48, 48, 52, 49, 59, 121, 38, 35, 120, 48, 48, 48, 48, 48, 48, 48, 48, 48, 48, 48, 48, 48, 48, 52, 49, 59, 34, 47, 62>>, wfok |-> TRUE, free |-> FALSE, defs |-> {}, needs |-> "", feat |-> "charref-long-form"],
+  \* <a s='&#x0010ffff;&lt;&#0000000065;'>
+  Sa7 |-> [k |-> "S", name |-> "a", attrs |-> <<[n |-> "s", raw |-> <<38, 35, 120, 48, 48, 49, 48, 102, 102, 102, 102, 59, 38, 108, 116, 59, 38, 35, 48, 48, 48, 48, 48, 48, 48, 48, 54, 53, 59>>]>>, body |-> <<>>, src |-> <<60, 97, 32, 115, 61, 39, 38, 35, 120, 48, 48, 49, 48, 102, 102, 102, 102, 59, 38, 108, 116, 59, 38, 35, 48, 48, 48, 48, 48, 48, 48, 48, 54, 53, 59, 39, 62>>, wfok |-> TRUE, free |-> FALSE, defs |-> {}, needs |-> "", feat |-> "charref-long-form"],
+  \* &#x (60 zeros) 20AC;   - a reference of 64 hex digits: no window of a plausible size holds it.  (Not longer, and not in the
+  \* random trees: Decode / HexOf recurse per byte of a merged text token and TLC's worker threads have a small stack.)
+  Tz64 |-> [k |-> "T", name |-> "", attrs |-> <<>>, body |-> <<38, 35, 120, 48, 48, 48, 48, 48, 48, 48, 48, 48, 48, 48, 48, 48, 48, 48, 48, 48, 48, 48, 48, 48, 48, 48, 48, 48, 48, 48, 48, 48, 48, 48, 48, 48, 48, 48, 48, 48, 48, 48, 48, 48, 48, 48, 48, 48, 48, 48, 48, 48, 48, 48, 48, 48, 48, 48, 48, 48, 48, 48, 48, 50, 48, 65, 67, 59>>, src |-> <<38, 35, 120, 48, 48, 48, 48, 48, 48, 48, 48, 48, 48, 48, 48, 48, 48, 48, 48, 48, 48, 48, 48, 48, 48, 48, 48, 48, 48, 48, 48, 48, 48, 48, 48, 48, 48, 48, 48, 48, 48, 48, 48, 48, 48, 48, 48, 48, 48, 48, 48, 48, 48, 48, 48, 48, 48, 48, 48, 48, 48, 48, 48, 50, 48, 65, 67, 59>>, wfok |-> TRUE, free |-> FALSE, defs |-> {}, needs |-> "", feat |-> "charref-long-form"],
   \* &foo;
   Tund |-> [k |-> "T", name |-> "", attrs |-> <<>>, body |-> <<38, 102, 111, 111, 59>>, src |-> <<38, 102, 111, 111, 59>>, wfok |-> FALSE, free |-> FALSE, defs |-> {}, needs |-> "", feat |-> ""],
   \* &e;
